@@ -15,11 +15,11 @@ import (
 	"strings"
 	"sync"
 	"sync/atomic"
+	"syscall"
 
 	"github.com/safing/jess"
 	"github.com/safing/jess/filesig"
 	"github.com/safing/jess/lhash"
-	"github.com/safing/jess/tools"
 
 	"verifharness/c17/shared"
 	"verifharness/internal/stats"
@@ -59,6 +59,12 @@ type caseDef struct {
 	Verify    bool   `json:"verify,omitempty"`
 	SigOnly   bool   `json:"sig_only,omitempty"`
 	StaleTmp  bool   `json:"stale_tmp,omitempty"`
+	// BadArchive: the zip holds an entry below a directory it never creates, so
+	// that extraction fails half way (a failed operation).
+	BadArchive bool `json:"bad_archive,omitempty"`
+	// FlakyServer: the first download attempt gets a truncated body (a failed
+	// operation), the retry succeeds.
+	FlakyServer bool `json:"flaky_server,omitempty"`
 }
 
 func (c caseDef) id() string {
@@ -84,6 +90,10 @@ var (
 	scratchRoot string // on /dev/shm (sandbox, inputs)
 	foreignRoot string // on another mount ($VERIF_SCRATCH, normally below /verif/.build)
 	runCounter  atomic.Int64
+	// foreignUsable: foreignRoot really is on another file system than the
+	// sandbox (otherwise the "other mount" variant is run as "same mount")
+	foreignUsable bool
+	foreignWarn   sync.Once
 
 	srvOnce  sync.Once
 	srv      *httptest.Server
@@ -115,7 +125,18 @@ func setupScratch() error {
 		return err
 	}
 	foreignRoot, err = filepath.EvalSymlinks(foreignRoot)
-	return err
+	if err != nil {
+		return err
+	}
+	var a, b syscall.Stat_t
+	if err := syscall.Stat(scratchRoot, &a); err != nil {
+		return err
+	}
+	if err := syscall.Stat(foreignRoot, &b); err != nil {
+		return err
+	}
+	foreignUsable = a.Dev != b.Dev
+	return nil
 }
 
 func cleanupScratch() {
@@ -130,6 +151,19 @@ func cleanupScratch() {
 	}
 }
 
+// served is one file of the loopback update server.
+type served struct {
+	data []byte
+	// truncateFirst > 0: that many requests get a truncated body first
+	truncateFirst atomic.Int32
+}
+
+func serve(path string, data []byte, truncateFirst int) {
+	sv := &served{data: data}
+	sv.truncateFirst.Store(int32(truncateFirst))
+	srvFiles.Store(path, sv)
+}
+
 func server() *httptest.Server {
 	srvOnce.Do(func() {
 		srv = httptest.NewServer(http.HandlerFunc(func(w http.ResponseWriter, r *http.Request) {
@@ -138,9 +172,23 @@ func server() *httptest.Server {
 				http.NotFound(w, r)
 				return
 			}
-			b := v.([]byte)
+			sv := v.(*served)
+			b := sv.data
 			w.Header().Set("Content-Length", fmt.Sprint(len(b)))
 			w.Header().Set("Content-Type", "application/octet-stream")
+			if sv.truncateFirst.Add(-1) >= 0 {
+				// announce everything, deliver a part, drop the connection: a failed download
+				_, _ = w.Write(b[:len(b)/2])
+				if f, ok := w.(http.Flusher); ok {
+					f.Flush()
+				}
+				if hj, ok := w.(http.Hijacker); ok {
+					if conn, _, err := hj.Hijack(); err == nil {
+						_ = conn.Close()
+					}
+				}
+				return
+			}
 			_, _ = w.Write(b)
 		}))
 	})
@@ -149,17 +197,12 @@ func server() *httptest.Server {
 
 func signer() error {
 	signOnce.Do(func() {
-		tool, err := tools.Get("Ed25519")
+		s, err := jess.GenerateSignet("Ed25519", 0)
 		if err != nil {
 			signErr = err
 			return
 		}
-		s := jess.NewSignetBase(tool.Definition())
 		s.ID = "c17-signing-key"
-		if err := tool.StaticLogic.GenerateKey(s); err != nil {
-			signErr = err
-			return
-		}
 		rcpt, err := s.AsRecipient()
 		if err != nil {
 			signErr = err
@@ -293,6 +336,12 @@ func build(c caseDef) (*built, error) {
 		}
 	}
 
+	if c.Tmp == tmpForeign && !foreignUsable {
+		foreignWarn.Do(func() {
+			stats.Warn("no second mount available below $VERIF_SCRATCH: the TMPDIR_other_mount variant runs as TMPDIR_same_mount")
+		})
+		c.Tmp = tmpSandbox
+	}
 	switch c.Tmp {
 	case tmpForeign:
 		f := filepath.Join(foreignRoot, fmt.Sprintf("tmp%06d", n))
@@ -400,7 +449,11 @@ func build(c caseDef) (*built, error) {
 		rel := "x/data_v1-0-0.bin"
 		dest := filepath.Join(storage, filepath.FromSlash(rel))
 		spec.Dest = dest
-		srvFiles.Store(token+"/"+rel, newData)
+		truncated := 0
+		if c.FlakyServer {
+			truncated = 1
+		}
+		serve(token+"/"+rel, newData, truncated)
 		cleanups = append(cleanups, func() { srvFiles.Delete(token + "/" + rel); srvFiles.Delete(token + "/" + rel + ".sig") })
 		b.exp.MayCreateDirs = []string{filepath.Join(storage, "x")}
 		fileTarget := target{Path: dest, Kind: "file", NewData: newData, SingleFile: true}
@@ -424,7 +477,7 @@ func build(c caseDef) (*built, error) {
 			if err != nil {
 				return nil, err
 			}
-			srvFiles.Store(token+"/"+rel+".sig", sig)
+			serve(token+"/"+rel+".sig", sig, 0)
 			if !c.SigOnly {
 				oldSig, err := signData(oldData, map[string]string{"id": spec.Identifier, "version": spec.Version})
 				if err != nil {
@@ -443,6 +496,27 @@ func build(c caseDef) (*built, error) {
 		}
 		b.exp.Temps = []tempRule{{Dir: filepath.Join(storage, "tmp")}}
 
+	case shared.OpUpdateIndexes:
+		storage := filepath.Join(sb, "updates")
+		if err := os.MkdirAll(storage, 0o755); err != nil {
+			return nil, err
+		}
+		token := fmt.Sprintf("/t%06d", n)
+		spec.Storage, spec.URL = storage, server().URL+token
+		dest := filepath.Join(storage, "stable.json")
+		spec.Dest = dest
+		index := func(seed uint64, size int) []byte {
+			return []byte(fmt.Sprintf(`{"Channel":"stable","Published":"2021-01-01T00:00:00Z","Releases":{"x/data.bin":"1.0.%d","x/pad.bin":"0.0.0-%s"}}`, seed%1000, strings.Repeat("p", size)))
+		}
+		newIndex := index(c.NewSeed, c.NewSize)
+		serve(token+"/stable.json", newIndex, 0)
+		cleanups = append(cleanups, func() { srvFiles.Delete(token + "/stable.json") })
+		if err := placeOld(dest, index(c.OldSeed, c.OldSize)); err != nil {
+			return nil, err
+		}
+		b.exp.Targets = []target{{Path: dest, Kind: "file", NewData: newIndex, SingleFile: true}}
+		b.exp.Temps = []tempRule{{Dir: filepath.Join(storage, "tmp")}}
+
 	case shared.OpUnpackArchive:
 		storage := filepath.Join(sb, "updates")
 		spec.Storage = storage
@@ -459,10 +533,16 @@ func build(c caseDef) (*built, error) {
 			"assets/deep/x.b": shared.MakeContent(c.NewSeed+2, 300),
 		}
 		order := []string{"index.html", "assets", "assets/app.js", "assets/empty", "assets/deep", "assets/deep/x.b"}
+		tg := target{Path: dest, Kind: "dir", NewTree: tree}
+		if c.BadArchive {
+			tree["missing-dir/file.bin"] = []byte("cannot be extracted")
+			order = append(order, "missing-dir/file.bin")
+			tg.Untouched = true
+			spec.ExpectError = true
+		}
 		if err := writeFileMode(archive, zipArchive(tree, order), 0o644); err != nil {
 			return nil, err
 		}
-		tg := target{Path: dest, Kind: "dir", NewTree: tree}
 		switch c.State {
 		case stPresent:
 			// an earlier unpacking: "it is assumed that the contents have already been correctly unpacked"
@@ -573,7 +653,7 @@ func runOne(c caseDef, k int, keepLog bool) (*runReport, error) {
 			return rep, fail("the operation did not behave as the case expects (%s)", tr.End)
 		}
 		for _, tg := range b.exp.Targets {
-			if !tg.Untouched && outs[tg.Path] != outNew {
+			if !tg.Untouched && outs[tg.Path] != outNew && outs[tg.Path] != outBoth {
 				return rep, fail("after a complete successful operation the destination %s shows %q, not the new content", strings.ReplaceAll(tg.Path, b.dirs.Sandbox, "<sb>"), outs[tg.Path])
 			}
 			if err := checkOrder(tg, tr.Calls); err != nil {
